@@ -494,7 +494,8 @@ class Check:
             json.dump(ev, fh, indent=1, sort_keys=True, default=str)
             fh.write("\n")
         for k in self.known_hit:
-            print("KNOWN-FINDING: property=%s %s" % (self.pid, k["text"]))
+            t = k["text"]
+            print("KNOWN-FINDING: %s" % (t if t.startswith("property=") else "property=%s %s" % (self.pid, t)))
         for p, suffix in self.violations:
             print("VIOLATION property=%s replay=%s%s" % (self.pid, p, suffix))
         print("[%s %s] %s in %.1fs  (obligations %s/%s, evaluations %s)" % (
